@@ -612,3 +612,14 @@ mutant("benign-tty-only-presentation", "clean", edits=[
      "            if sys.stdout.isatty():\n                print(\"-\" * 40)\n"
      "            print(\"Cleaned vector:       \", cvss_vector.clean_vector())\n")],
     note="a separator line printed on terminals only: presentation, the reported values are unchanged")
+
+# ------------------------------------------------------------------------------ C19: sticky flags of the caller's decimal context
+mutant("c19-v3-round-up-consults-sticky-flag", "C19", edits=[
+    ("cvss/cvss3.py", "from decimal import ROUND_CEILING\n", "from decimal import ROUND_CEILING, ROUND_HALF_UP, Clamped, getcontext\n"),
+    ("cvss/cvss3.py",
+     "    return value.quantize(D(\"0.1\"), rounding=ROUND_CEILING)\n",
+     "    if getcontext().flags[Clamped]:\n"
+     "        # the operand was clamped somewhere: its last digits are artefacts, do not round them up\n"
+     "        return value.quantize(D(\"0.1\"), rounding=ROUND_HALF_UP)\n"
+     "    return value.quantize(D(\"0.1\"), rounding=ROUND_CEILING)\n")],
+    note="reads a sticky signal flag of the ambient context, which the caller may have raised long before (the library itself never raises it): v3 scores differ only when the flag is already set")
